@@ -83,6 +83,21 @@ def continuous_cases():
          stats.weibull_min(1.5, scale=2.0), 1, 1 << 14, (0, inf), []),
         ("Weibull(0.7,3)", lambda s: D.DistWeibull(s, 0.7, 3.0),
          stats.weibull_min(0.7, scale=3.0), 1, 1 << 14, (0, inf), []),
+        # parameters exactly 1 (where families coincide with simpler ones)
+        ("Weibull(1.0,2.5)", lambda s: D.DistWeibull(s, 1.0, 2.5),
+         stats.weibull_min(1.0, scale=2.5), 1, 1 << 14, (0, inf), []),
+        ("Weibull(1,0.25)", lambda s: D.DistWeibull(s, 1, 0.25),
+         stats.weibull_min(1.0, scale=0.25), 1, 1 << 14, (0, inf), []),
+        ("Weibull(2.0,1.0)", lambda s: D.DistWeibull(s, 2.0, 1.0),
+         stats.weibull_min(2.0, scale=1.0), 1, 1 << 14, (0, inf), []),
+        ("Exponential(1)", lambda s: D.DistExponential(s, 1.0),
+         stats.expon(scale=1.0), 1, 1 << 14, (0, inf), []),
+        ("Gamma(1,1)", lambda s: D.DistGamma(s, 1.0, 1.0),
+         stats.gamma(1.0, scale=1.0), 1, 1 << 14, (0, inf), []),
+        ("Gamma(2,1)", lambda s: D.DistGamma(s, 2.0, 1.0),
+         stats.gamma(2.0, scale=1.0), 2, 256, (0, inf), []),
+        ("Normal(0,1)", lambda s: D.DistNormal(s, 0.0, 1.0),
+         stats.norm(0.0, 1.0), 2, 256, (-inf, inf), []),
         ("Uniform(1,4)", lambda s: D.DistUniform(s, 1.0, 4.0),
          stats.uniform(1, 3), 1, 1 << 14, (1, 4), [1.0, 4.0]),
         ("Triangular(1,2,4)", lambda s: D.DistTriangular(s, 1.0, 2.0, 4.0),
@@ -212,11 +227,18 @@ def density_worker(name):
     return dict(name=name, n=n, bad=bad[:20], integral=I, worst_rel=worst_rel)
 
 
-def sampler_worker(name):
+# thorough: finer lattices per number of uniforms k (threshold 2/N follows)
+FINER = {1: 4, 2: 3, 3: 2, 4: 2}
+
+
+def sampler_worker(task):
     np = np_()
     Lattice = make_stream()
+    name, finer = task if isinstance(task, tuple) else (task, False)
     case = [c for c in continuous_cases() if c[0] == name][0]
     _, mk, ref, k, N, (lo, hi), special = case
+    if finer:
+        N = N * FINER[k]
     st = Lattice()
     d = mk(st)
     vals = []
@@ -393,6 +415,27 @@ def discrete_worker(name):
                 bad.append(("probability-of-non-integer", name, repr(x), p))
         except Exception:  # noqa
             pass
+    # the answer for an observation does not depend on what was asked before
+    # (the same number as an int or as a float, in either order)
+    qa, qb = mk(Lattice()), mk(Lattice())
+    fl = [float(x) for x in support]
+
+    def ask(q, xs):
+        out = []
+        for x in xs:
+            try:
+                out.append(q.probability(x))
+            except Exception as ex:  # noqa
+                out.append("raised " + type(ex).__name__)
+        return out
+    a_f, a_i = ask(qa, fl), ask(qa, list(support))
+    b_i, b_f = ask(qb, list(support)), ask(qb, fl)
+    n += 4 * len(fl)
+    if a_i != b_i or a_f != b_f:
+        bad.append(("probability-depends-on-earlier-queries", name,
+                    "ints after floats %s, ints first %s; floats first %s, "
+                    "floats after ints %s" % (a_i[:6], b_i[:6], a_f[:6],
+                                              b_f[:6])))
     # sampler side: exact lattice mass
     cnt = {}
     acc = 0
@@ -678,6 +721,42 @@ def poisson_check():
                 bad.append(("sampler-frequency-differs-from-probability",
                             "Poisson(%s)" % rate, k - 1,
                             "lattice mass %.6g, probability() %.6g" % (m, p)))
+    # large rates: on a stream that answers the constant c every time, the
+    # product method yields the number of factors c needed to get below
+    # exp(-rate), i.e. rate / -ln(c) up to the rounding of each part the rate
+    # is split into.  Exhaustive over the constants and rates of the table.
+    class Const(Lattice):
+        def __init__(self, cst):
+            super().__init__()
+            self.cst = cst
+            self.budget = 0
+
+        def next_float(self):
+            self.i += 1
+            if self.i > self.budget:
+                raise RuntimeError("budget")
+            return self.cst
+    for rate in (0.5, 3.0, 50, 700.0, 700.5, 745.0, 746.0, 1000, 1400.0,
+                 5000.0, 20000, 1e5):
+        for cst in (0.5, 0.9, 0.36787944117144233, 0.99, 0.999, 0.05):
+            L = -math.log(cst)
+            expect = rate / L
+            if expect > 3e6:
+                continue
+            n += 1
+            st = Const(cst)
+            st.budget = int(expect * 1.5) + 1000
+            d = D.DistPoisson(st, rate)
+            try:
+                x = d.draw()
+            except RuntimeError:
+                x = None
+            tol = 2 + rate / 500.0
+            if x is None or abs(x - expect) > tol:
+                bad.append(("poisson-large-rate-not-governed-by-the-rate",
+                            "Poisson(%s)" % rate,
+                            "constant stream %r: draw %r, rate/-ln(c) = %.1f"
+                            % (cst, x, expect)))
     return n, bad
 
 
@@ -778,7 +857,8 @@ def run(ctx):
                           {"part": "density", "case": r["name"]})
     ctx.part("density grids + quadrature", cases=len(cont))
     worst = []
-    for r in common.pimap(sampler_worker, cont):
+    finer = ctx.tier != "quick"
+    for r in common.pimap(sampler_worker, [(c, finer) for c in cont]):
         ev += r["lattice"]
         nontriv += 1
         worst.append((r["name"], r.get("ks"), r.get("threshold"),
@@ -786,7 +866,8 @@ def run(ctx):
         for b in r["bad"]:
             ctx.violation("C15:%s:%s" % (b[0], b[1]),
                           "sampler push-forward: %s" % (b,),
-                          {"part": "sampler", "case": r["name"]})
+                          {"part": "sampler", "case": r["name"],
+                           "finer": finer})
     for w in worst:
         ctx.part("lattice push-forward %s" % w[0], ks=w[1], threshold=w[2],
                  accepted=w[3], lattice=w[4])
@@ -860,7 +941,8 @@ def replay(data):
     if part == "density":
         return density_worker(data["case"])["bad"][:3] or None
     if part == "sampler":
-        return sampler_worker(data["case"])["bad"][:3] or None
+        return sampler_worker((data["case"],
+                               data.get("finer", False)))["bad"][:3] or None
     if part == "discrete":
         return discrete_worker(data["case"])["bad"][:3] or None
     if part == "sibling":
